@@ -200,3 +200,64 @@ Proof.
   - vm_compute. congruence.
   - vm_compute. reflexivity.
 Qed.
+
+(* ---- the constructor's validation and the draw stream ------------------------------------------------------- *)
+Lemma validate_rows_ok rows l : validate_rows rows = inr l ->
+  rows = map (fun p => [px p; py p]) l /\ forall p, In p l -> 0 <= px p.
+Proof.
+  revert l; induction rows as [|r t IH]; intros l H.
+  - cbn in H. inversion H. split; [reflexivity | intros p []].
+  - cbn [validate_rows] in H. destruct r as [|x [|y [|z r']]]; try discriminate.
+    destruct (Qlt_b x 0) eqn:E; [discriminate|].
+    destruct (validate_rows t) as [e|l'] eqn:Et; [discriminate|]. injection H as Hl. subst l.
+    destruct (IH l' eq_refl) as [H1 H2]. split.
+    + cbn [map px py fst snd]. rewrite <- H1. reflexivity.
+    + intros p [Hp|Hp]; [|apply H2; exact Hp]. subst p. cbn [px fst].
+      unfold Qlt_b in E. apply Bool.negb_false_iff, Qle_bool_iff in E. exact E.
+Qed.
+
+Lemma construct_accepts rows ptype l : construct rows ptype = inr l ->
+  exists pts, rows = map (fun p => [px p; py p]) pts /\ l = normalise pts /\ (3 <= length pts)%nat /\
+              (forall p, In p pts -> 0 <= px p) /\ (ptype = 0 \/ ptype = 1)%Z.
+Proof.
+  unfold construct. intros H.
+  destruct (Z.of_nat (length rows) <? 3)%Z eqn:E3; [discriminate|]. apply Z.ltb_ge in E3.
+  destruct (validate_rows rows) as [e|pts] eqn:Ev; [discriminate|].
+  destruct ((ptype =? 0)%Z || (ptype =? 1)%Z) eqn:Ep; [|discriminate]. injection H as Hl.
+  destruct (validate_rows_ok rows pts Ev) as [H1 H2]. exists pts. repeat split; try assumption; try (symmetry; assumption).
+  - rewrite H1, map_length in E3. lia.
+  - apply Bool.orb_true_iff in Ep. destruct Ep as [Ep|Ep]; apply Z.eqb_eq in Ep; auto.
+Qed.
+
+Lemma take_draws_length ntri : forall n stream, (3 * n <= length stream)%nat ->
+  length (fst (take_draws ntri n stream)) = n.
+Proof.
+  induction n as [|n IH]; intros stream H; [reflexivity|].
+  cbn [take_draws]. destruct (1 <? ntri)%nat.
+  - destruct stream as [|a [|b [|c rest]]]; try (cbn in H; lia).
+    specialize (IH rest). destruct (take_draws ntri n rest) as [ds r]. cbn [fst length] in *. rewrite IH; [reflexivity | cbn in H; lia].
+  - destruct stream as [|a [|b rest]]; try (cbn in H; lia).
+    specialize (IH rest). destruct (take_draws ntri n rest) as [ds r]. cbn [fst length] in *. rewrite IH; [reflexivity | cbn in H; lia].
+Qed.
+
+(* the call with a positive grid_samples is the estimator of the theorems, on the draws taken from the stream *)
+Lemma emissivity_call_positive sqrt f l tris n stream : (0 < n)%Z -> (3 * Z.to_nat n <= length stream)%nat ->
+  fst (emissivity_call sqrt f l tris n stream) =
+  Some (Qsum (map (fun d => f (sample_point sqrt l tris d)) (fst (take_draws (length tris) (Z.to_nat n) stream))) / inject_Z n)
+  /\ length (fst (take_draws (length tris) (Z.to_nat n) stream)) = Z.to_nat n.
+Proof.
+  intros Hn Hs. unfold emissivity_call. destruct (n =? 0)%Z eqn:E; [apply Z.eqb_eq in E; lia|].
+  split; [|apply take_draws_length; exact Hs].
+  destruct (take_draws (length tris) (Z.to_nat n) stream) as [ds r]. reflexivity.
+Qed.
+
+Lemma emissivity_call_policy sqrt f l tris stream :
+  fst (emissivity_call sqrt f l tris 0 stream) = None /\
+  forall n, (n < 0)%Z -> exists q, fst (emissivity_call sqrt f l tris n stream) = Some q /\ q == 0 /\
+                                   snd (emissivity_call sqrt f l tris n stream) = stream.
+Proof.
+  split; [reflexivity|]. intros n Hn. unfold emissivity_call.
+  destruct (n =? 0)%Z eqn:E; [apply Z.eqb_eq in E; lia|].
+  replace (Z.to_nat n) with O by lia. cbn [take_draws map Qsum fst snd].
+  eexists. split; [reflexivity|]. split; [|reflexivity]. unfold Qdiv. ring.
+Qed.
